@@ -235,7 +235,14 @@ Do(k) ==
     [] k[1] = "ipparse" -> EvalIpParse(k[2][1], RefIpParse(k[2][1]))
 
 MCInit == memo = <<>> /\ probe = NoProbe
-MCNext == UNCHANGED probe /\ \E k \in Calls : Do(k)
+\* the caller's own slices: it overwrites one it was handed or had passed (with its complement),
+\* or reads the untouched ones of an earlier evaluation again
+SliceFields(k) == {"input"} \cup (DOMAIN memo[k] \cap {"parsed", "frint"})
+Compl(b) == [i \in 1..Len(b) |-> 255 - b[i]]
+DoScribble == \E k \in DOMAIN memo : \E f \in SliceFields(k) :
+                Len(SliceOf(k, f)) > 0 /\ Scribble(k, f, SliceOf(k, f), Compl(SliceOf(k, f)))
+DoHeld == \E k \in DOMAIN memo : Held(k, [f \in SliceFields(k) |-> SliceOf(k, f)])
+MCNext == UNCHANGED probe /\ ((\E k \in Calls : Do(k)) \/ DoScribble \/ DoHeld)
 MCSpec == MCInit /\ [][MCNext]_mcvars
 
 \* every memorised value is the reference value of its key
